@@ -233,6 +233,8 @@ def gen_history(rng, tier):
         else:
             steps.append(("restart",))
             cur = None
+    # every history ends with clients hanging up mid-request (whatever key is latched by then) and a last look at the status
+    steps += [("abort",), ("tick",)]
     return steps
 
 
